@@ -239,12 +239,37 @@ struct Out {
 fn run_doc(out: &mut Out, si: usize, sdl: &str, tsdoc: &TypeSystemDocument, schema: &Schema<Cow<str>, Pos>, text: &str, stream: &str) {
     let doc: OperationDocument = match load_operation(text) { Ok(d) => d, Err(_) => { *out.stats.entry("documents_not_loaded").or_insert(0) += 1; return; } };
     let errs = check_operation(schema, &doc);
+    if stream == "spec-invalid" {
+        // Field Selection Merging violations: check accepts them (rule not implemented; C03/C08's subject),
+        // generate panics in deep_merge.rs.  Outside C01/C02's quantifier: only the outcome is tied.
+        out.docs.push(ast_coq::opdoc(&doc));
+        let di = out.docs.len() - 1;
+        let options = OperationTypePrinterOptions::default();
+        let fragment_definitions: HashMap<&str, &FragmentDefinition> = doc.definitions.iter().filter_map(|d| match d {
+            ExecutableDefinition::FragmentDefinition(f) => Some((f.name.name, f)), _ => None }).collect();
+        let ctx = QueryTypePrinterContext { options: &options, schema, fragment_definitions: &fragment_definitions };
+        for (idx, d) in doc.definitions.iter().enumerate() {
+            let (parent, sels) = match d {
+                ExecutableDefinition::OperationDefinition(o) => (root_name(tsdoc, o.operation_type), &o.selection_set),
+                ExecutableDefinition::FragmentDefinition(f) => (f.type_condition.name.to_string(), &f.selection_set),
+            };
+            let parent_ty: Type<Cow<str>, Pos> = Type::NonNull(Box::new(graphql_type_system::NonNullType::from(Type::Named(
+                graphql_type_system::NamedType::from(graphql_type_system::Node::from(parent.as_str(), Pos::builtin()))))));
+            let r = catch(AssertUnwindSafe(|| get_type_for_selection_set(&ctx, sels, &parent_ty)));
+            let (term, outcome) = match &r { Ok(t) => (format!("(Some (Ok {}))", stree(t)), "ok".to_string()), Err(m) => (perr(m), format!("panic: {}", m.lines().next().unwrap_or(""))) };
+            out.terms.push((si, di, format!("CInvalid {{S}} {{D}} {} {}", idx, term)));
+            out.descr.push(json!({"kind": "definition of a spec-invalid document (outside the quantifier; outcome tie only)", "stream": stream, "definition": idx,
+                                  "schema": sdl, "doc": text, "check_errors": errs.len(), "outcome": outcome, "classes": []}));
+            *out.stats.entry("spec_invalid_definitions(outcome tie only)").or_insert(0) += 1;
+        }
+        out.distinct.insert(format!("{}\u{0}{}", sdl, text));
+        return;
+    }
     if !errs.is_empty() && (stream == "valid" || stream == "systematic") { *out.stats.entry("documents_rejected_by_check").or_insert(0) += 1; return; }
     let checked = errs.is_empty();
     out.docs.push(ast_coq::opdoc(&doc));
     let di = out.docs.len() - 1;
     let (terms_mark, descr_mark) = (out.terms.len(), out.descr.len());
-    out.distinct.insert(format!("{}\u{0}{}", sdl, text));
     *out.stats.entry("documents").or_insert(0) += 1;
     let mut st = BTreeMap::new();
     for d in &doc.definitions {
@@ -337,6 +362,9 @@ fn run_doc(out: &mut Out, si: usize, sdl: &str, tsdoc: &TypeSystemDocument, sche
         out.terms.truncate(terms_mark);
         out.descr.truncate(descr_mark);
         *out.stats.entry("documents_left_out_case_term_over_400KB").or_insert(0) += 1;
+    } else if out.terms.len() > terms_mark {
+        // measured: distinct (schema, document) pairs that contributed at least one evaluated case
+        out.distinct.insert(format!("{}\u{0}{}", sdl, text));
     }
 }
 
@@ -403,6 +431,19 @@ fn main() {
             }
         }
         out.stats.insert("systematic_documents", n_sys);
+    }
+
+    // spec-invalid documents that check accepts (C08_merge_unchecked_refuted's witnesses and variants)
+    {
+        let (sdl, _) = corpus()[0];
+        let tsdoc = load_schema(sdl).expect("corpus schema loads");
+        let term = ast_coq::tsdoc(&tsdoc);
+        let si = out.schemas.iter().position(|t| t == &term).unwrap();
+        let ts = to_type_system(&tsdoc);
+        for text in ["query Q { x: i { id } x: a { id } }", "query Q { k: a { x } k: b { x } }", "query Q { a { k: x k: a { id } } }",
+                     "query Q { k: __typename k: a { x } }", "query Q { a { id } ... on Query { a: b { id } } }"] {
+            run_doc(&mut out, si, sdl, &tsdoc, &ts, text, "spec-invalid");
+        }
     }
 
     let (n_schemas, n_docs) = if thorough { (300, 10) } else { (36, 5) };
